@@ -15,7 +15,7 @@ META = {
         'by select-list position, not by variable name; R2 at every yield the target-ILI variable is known non-None ("targets '
         'without an ILI are dropped"); R3 _iter_relations yields own relations first and the expanded ones only when the synset has '
         'an ILI and the Wordnet has expand ids; expand="" leaves _expanded_ids empty; R4 default expand: "*" in default mode, '
-        'otherwise the installed declared dependencies of the selected lexicons, with a WnWarning iff some dependency is missing. R5 traversals through placeholders keep visited sets by entity (C11-R1, R6). R6 the lexicon reported with a relation is the one that declares it: in each relation query the `lexicons` row of the specifier is joined on the relation table\'s own lexicon_rowid (key comparisons resolved against the schema). R7 waiting dependency rows are re-linked on every path of _insert_lexicon (C05-R5).'),
+        'otherwise the installed declared dependencies of the selected lexicons, with a WnWarning iff some dependency is missing. R5 traversals through placeholders keep visited sets by entity (C11-R1, R6). R6 the lexicon reported with a relation is the one that declares it: in each relation query the `lexicons` row of the specifier is joined on the relation table\'s own lexicon_rowid (key comparisons resolved against the schema). R7 waiting dependency rows are re-linked on every path of _insert_lexicon (C05-R5). R8 the relation table itself is restricted to the lexicon scope in each relation query.'),
     'decides': ['provenance of expanded relations', 'non-null ILI at every yield', 'order and switch', 'default expand set'],
     'not_decided': ['many-to-many ILI mapping results', 'chains through several placeholders (value level)'],
     'assumptions': [],
